@@ -48,6 +48,7 @@ var _ sync.Mutex
 	cell("goroutines-in-a-loop", "\tvar wg sync.WaitGroup\n\tvar mu sync.Mutex\n\tsum := 0\n\tfor i := 0; i < 20; i++ {\n\t\twg.Add(1)\n\t\tgo func(k int) {\n\t\t\tdefer wg.Done()\n\t\t\tmu.Lock()\n\t\t\tsum += k\n\t\t\tmu.Unlock()\n\t\t}(i)\n\t}\n\twg.Wait()\n\tobs(\"sum\", sum)\n")
 	cell("go-function-variable", "\tc := make(chan int, 2)\n\tf := func(v int) { c <- v }\n\tgo f(1)\n\tx := <-c\n\tf = func(v int) { c <- -v }\n\tgo f(2)\n\tobs(\"x\", x, <-c)\n")
 	cell("range-kinds", "\ts := 0\n\tfor i := range 3 {\n\t\ts += i\n\t}\n\tfor _, r := range \"ab\" {\n\t\ts += int(r)\n\t}\n\tfor k, v := range map[int]int{1: 2} {\n\t\ts += k * v\n\t}\n\tfor i, v := range &[2]int{5, 6} {\n\t\ts += i * v\n\t}\n\tobs(\"s\", s)\n")
+	cell("range-string-positions", "\ts := \"h\u00e9llo, \u4e16\u754c\"\n\tt := s[2:9]\n\tfor i, r := range t {\n\t\tobs(\"ir\", i, r)\n\t}\n\tfor i := range \"h\u00e9llo\" {\n\t\tobs(\"i\", i)\n\t}\n\tu := \"xyz\"\n\tfor i, r := range u {\n\t\tu = \"changed\"\n\t\tobs(\"u\", i, r)\n\t}\n\tobs(\"end\", u)\n")
 	cell("send-directions", "\tc := make(chan int, 1)\n\tvar so chan<- int = c\n\tvar ro <-chan int = c\n\tso <- 4\n\tobs(\"v\", <-ro)\n\tselect {\n\tcase so <- 9:\n\t\tobs(\"sent\", len(c))\n\tdefault:\n\t\tobs(\"full\")\n\t}\n")
 	return p
 }
